@@ -58,9 +58,10 @@ theorem c07_reload_partial (b : Bench) (h : b.Configured) (hs : b.asDict.seriali
   unfold Bench.reload J.roundTrip
   simp [hs, bench_roundtrip b h]
 
-/-- the excluded class: an unquoted YAML date among the variable values makes
-`json.dumps` raise `TypeError` at the first `persist` -/
-theorem c07_reload_full_fails : ∃ b : Bench, b.Configured ∧ b.reload = none :=
+/-- why the configuration loader reads a scalar that looks like a date as text
+(`_ConfigLoader`): a date object among the variable values would make `json.dumps`
+raise `TypeError` at the first `persist`; no loaded configuration contains one -/
+theorem c07_reload_date_unserialisable : ∃ b : Bench, b.Configured ∧ b.reload = none :=
   ⟨⟨.str "B", .str "B", .str "x", exRD, ⟨[.date "2020-01-01"], [.int 1], [.str ""], [.none]⟩, exSuite⟩,
    by simp [Bench.Configured, RunDetails.Configured, exSuite, exExec, exRD], by decide⟩
 
@@ -185,6 +186,7 @@ theorem c07_line_roundtrip_partial (l : MeasLine) (q : Rat) (hv : l.value = fmt6
                                            crit := l.crit, rid := l.rid }
       ∧ |v - q| ≤ 1 / 2000000 := by
   obtain ⟨v, hr, hb⟩ := c07_fmt6_bound q
+  replace hr := readValue_of_readFixed hr
   refine ⟨v, ?_, hb⟩
   unfold parseMeas renderMeas
   rw [splitSep_joinSep '\t' _ (by simp)]
@@ -208,25 +210,75 @@ def exLine : MeasLine :=
 -- non-vacuity
 example : exLine.SepFree := by simp [MeasLine.SepFree, exLine, sepFree]
 
-/-- excluded class (b1): a tab inside the criterion (RebenchLog's `[^:]{1,30}`
+/-- "a recorded measurement … reload[s] with the same invocation, iteration,
+value (to the six decimals written), unit, criterion and run": for every text
+an adapter or the configuration can deliver the written line is read back by
+text-mode reading as exactly one line, and that line parses to the
+measurement's invocation, iteration, run id, the value to `5·10⁻⁷`, and unit
+and criterion as written: with a tab / line feed / carriage return replaced by
+a space (`cleanCell`) — the same text whenever it contains none of the three
+(`cleanCell_of_sepFree`).  The run's columns are written the same way. -/
+theorem c07_line_roundtrip (l : MeasLine) (q : Rat) (hv : l.value = fmt6 q) :
+    ∃ v, (splitLines (writeMeas l ++ ['\n'])).map parseMeas =
+        [some { inv := l.inv, it := l.it, value := v, unit := cleanCell l.unit,
+                crit := cleanCell l.crit, rid := l.rid }]
+      ∧ |v - q| ≤ 1 / 2000000 := by
+  have hok : LineOk l.cleaned q := ⟨hv, cleaned_sepFree l⟩
+  obtain ⟨v, hp⟩ := pieces_render l.cleaned q hok
+  obtain ⟨v', hp', hb⟩ := c07_line_roundtrip_partial l.cleaned q hv (cleaned_sepFree l)
+  have hsplit := splitLines_plain _ (renderMeas_plainLine l.cleaned q hok)
+  refine ⟨v', ?_, hb⟩
+  unfold writeMeas
+  rw [hsplit]
+  simp only [List.map_cons, List.map_nil, hp']
+  rfl
+
+/-- why the cells are normalised (b1): written as it is, a tab inside the criterion (RebenchLog's `[^:]{1,30}`
 allows one) shifts the columns; the line reloads with another criterion -/
 theorem c07_line_roundtrip_tab_fails :
     (parseMeas (renderMeas { exLine with crit := "me\tm".toList })).map (·.crit) = some "me".toList := by
   decide +kernel
 
-/-- excluded class (b2): a carriage return inside the unit (JMH's `(.+)` keeps
+/-- why the cells are normalised (b2): written as it is, a carriage return inside the unit (JMH's `(.+)` keeps
 the `\r` of CR-LF output): universal-newline reading splits the line in two and
 neither half parses — the data point is lost and its invocation runs again -/
 theorem c07_line_roundtrip_cr_fails :
     (splitLines (renderMeas { exLine with unit := "ms\r".toList } ++ ['\n'])).map parseMeas = [none, none] := by
   decide +kernel
 
-/-- excluded class (c): ValidationLog's boolean is written as `True`, which `float()` rejects -/
-theorem c07_line_roundtrip_bool_fails :
-    parseMeas (renderMeas { exLine with value := "True".toList, crit := "Success".toList }) = none := by
+/-- ValidationLog's boolean is written as `True` / `False` and read back as that value
+(`True == 1`): before the repair `float()` rejected the line -/
+theorem c07_line_roundtrip_bool (l : MeasLine) (hs : l.SepFree) (b : Bool)
+    (hv : l.value = (if b then "True".toList else "False".toList)) :
+    parseMeas (renderMeas l) = some { inv := l.inv, it := l.it, value := if b then 1 else 0, unit := l.unit,
+                                       crit := l.crit, rid := l.rid } := by
+  have hval : readValue l.value = some (if b then 1 else 0) := by
+    rw [hv]; cases b <;> decide +kernel
+  unfold parseMeas renderMeas
+  rw [splitSep_joinSep '\t' _ (by simp)]
+  · simp only [List.cons_append, List.nil_append]
+    simp [decToNat_natToDec, hval, List.getLast?_append]
+  · intro f hf
+    simp only [List.cons_append, List.nil_append, List.mem_cons, List.mem_append, List.not_mem_nil,
+      or_false] at hf
+    rcases hf with rfl | rfl | rfl | rfl | rfl | hf | rfl
+    · exact natToDec_noTab _
+    · exact natToDec_noTab _
+    · rw [hv]; cases b <;> decide
+    · exact sepFree_noTab hs.1
+    · exact sepFree_noTab hs.2.1
+    · exact sepFree_noTab (hs.2.2 _ hf)
+    · exact natToDec_noTab _
+
+def exHostile : MeasLine :=
+  ⟨exLine.inv, exLine.it, exLine.value, "ms\r".toList, "me\tm".toList,
+   ["B".toList, "E".toList, "S".toList, "folded args\n".toList, "1".toList, [], [], [], []], exLine.rid⟩
+
+example : (splitLines (writeMeas exHostile ++ ['\n'])).map
+    (fun x => (parseMeas x).map (fun p => (p.unit, p.crit))) = [some ("ms ".toList, "me m".toList)] := by
   decide +kernel
 
-/-- excluded class (b3): a line feed inside one of the run's identifying columns
+/-- why the cells are normalised (b3): written as it is, a line feed inside one of the run's identifying columns
 (`extra_args` from a YAML folded scalar ends in `\n`) breaks every measurement
 line of the run in two; nothing of the run reloads -/
 theorem c07_line_roundtrip_newline_in_columns_fails :
@@ -338,12 +390,13 @@ example : DPOk (fun _ : Nat => ["B".toList, "E".toList]) 0
    ⟨[{ crit := "mem", unit := "kb", value := .flt 3 }], { crit := "total", unit := "ms", value := .flt (25 / 2) },
     rfl, rfl, by intro m hm; simp at hm; subst hm; decide⟩⟩
 
-/-- the same histories outside `DPOk`: a criterion with a tab reloads under another name, and a data point
-whose only `total` line is cut by a carriage return in its unit never completes — `loadT` shows it, `load` cannot -/
-theorem c07_textLoader_differs :
+/-- outside `DPOk`, where the two loaders differed before cells were normalised: a data point whose only
+`total` line has a carriage return in its unit used to be cut in two by text-mode reading and never
+completed (`loadT` gave 0 data points, `load` 1) — the written cell has a space there, both give 1 -/
+theorem c07_textLoader_cr_agrees :
     let dp : DP := { inv := 1, it := 1, ms := [{ crit := "total", unit := "ms\r", value := .flt 1 }] }
     let c := (persist (fun k : Nat => k) 0 dp (FP.ofTables [] emptyTables)).content
-    (match loadT (fun _ : Nat => []) (fun x => x) (fun x => x) c with | .ok r => r.2.length | .error _ => 99) = 0 ∧
+    (match loadT (fun _ : Nat => []) (fun x => x) (fun x => x) c with | .ok r => r.2.length | .error _ => 99) = 1 ∧
     (match load (fun x : Nat => x) (fun x : Nat => x) c with | .ok r => r.2.length | .error _ => 99) = 1 := by
   decide +kernel
 
@@ -375,13 +428,52 @@ theorem c07_total_in_the_middle_fails :
     errOf (loadT (fun _ : Nat => []) (fun x => x) (fun x => x) (w (fun d => { d with ms := totalLast d.ms }))) = none := by
   decide +kernel
 
-/-- "its sample count … equal[s] that of the recording session" fails for a
-run contained in experiments with different data files: every file is loaded
-into the same run, so one recorded data point counts once per file -/
-theorem c07_samples_multifile_fails :
+open RB.Session in
+theorem newInFile_seen {κ : Type} [DecidableEq κ] (k : κ) (seen : List (Nat × Nat)) (ls : List (Loaded κ))
+    (h : ∀ l ∈ ls, l.k = k → (l.inv, l.it) ∈ seen) : newInFile k seen ls = [] := by
+  simp only [newInFile, List.filter_eq_nil_iff, decide_eq_true_eq, not_and, not_not]
+  exact fun l hl hk => h l hl hk
+
+open RB.Session in
+theorem sampleCount_newInFile {κ : Type} [DecidableEq κ] (k : κ) (w : Nat) (ls : List (Loaded κ)) :
+    sampleCount k w (newInFile k [] ls) = sampleCount k w ls := by
+  simp only [sampleCount, newInFile, List.filter_filter, List.not_mem_nil, not_false_eq_true, and_true]
+  congr 1
+  apply List.filter_congr
+  intro l _
+  by_cases h : l.k = k <;> simp [h]
+
+open RB.Session in
+theorem countedLoaded_copies {κ : Type} [DecidableEq κ] (k : κ) (ls : List (Loaded κ)) (n : Nat)
+    (seen : List (Nat × Nat)) (h : ∀ l ∈ ls, l.k = k → (l.inv, l.it) ∈ seen) :
+    countedLoaded k seen (List.replicate n ls) = List.replicate n [] := by
+  induction n generalizing seen with
+  | zero => rfl
+  | succ n ih =>
+    simp only [List.replicate_succ, countedLoaded, newInFile_seen k seen ls h, List.map_nil, List.append_nil]
+    rw [ih seen h]
+
+/-- "its sample count … equal[s] that of the recording session" for a run contained in
+experiments with different data files: every data point of the run is in each of its
+files (`c06_right_files`) and every file is loaded into the same run — the copies of a
+data point count once.  (Before the repair each file added its copy: 2 or 3 times the
+samples.) -/
+theorem c07_samples_multifile {κ : Type} [DecidableEq κ] (c : RB.Session.RunC κ) (ls : List (Loaded κ)) (n : Nat) :
+    (RB.Session.initRun c (List.replicate (n + 1) ls)).samples = sampleCount c.key c.warmup ls := by
+  have hseen : ∀ l ∈ ls, l.k = c.key →
+      (l.inv, l.it) ∈ ([] ++ (RB.Session.newInFile c.key [] ls).map (fun l => (l.inv, l.it))) := by
+    intro l hl hk
+    simp only [List.nil_append, List.mem_map]
+    exact ⟨l, by simp [RB.Session.newInFile, hl, hk], rfl⟩
+  simp only [RB.Session.initRun, List.replicate_succ, RB.Session.countedLoaded]
+  rw [countedLoaded_copies c.key ls n _ hseen]
+  simp only [List.map_cons, List.map_replicate, List.sum_cons, List.sum_replicate, sampleCount_newInFile]
+  simp [sampleCount]
+
+example :
     let ls : List (Loaded Nat) := [{ k := 0, inv := 1, it := 1 }]
     let c : RB.Session.RunC Nat := { key := 0, invocations := 1, retries := 0, warmup := 0, files := [0, 1], builds := [] }
-    (RB.Session.initRun c [ls, ls]).samples = 2 ∧ (RB.Session.initRun c [ls, ls]).m = 1 := by
+    (RB.Session.initRun c [ls, ls]).samples = 1 ∧ (RB.Session.initRun c [ls, ls]).m = 1 := by
   decide
 
 end RB.DataFile
